@@ -482,6 +482,14 @@ def run(ctx):
     ctx.stage('tlc-invariants', distinct=res.distinct, generated=res.generated,
               depth=res.depth, wall=round(res.wall_s, 1))
 
+    # 1b. the clauses that speak of "any monotonic clock readings", for unbounded integers (Apalache, inductive invariant)
+    base = tlc.apalache('StopWatchInd', 'Init', 'Goal', 0, ctx.work)
+    step = tlc.apalache('StopWatchInd', 'IndInit', 'Goal', 1, ctx.work)
+    wrong = tlc.apalache('StopWatchInd', 'IndInit', 'WrongGoal', 1, ctx.work)
+    if (base, step, wrong) != ('ok', 'ok', 'violation'):
+        raise MachineryError('StopWatchInd: base %s, step %s, wrong goal %s' % (base, step, wrong))
+    ctx.stage('apalache-inductive', base=base, step=step, wrong_goal=wrong)
+
     # 2. graph export and spec -> code replay --------------------------------
     gcfg = 'MC_StopWatch_graph_quick.cfg' if quick else 'MC_StopWatch_graph.cfg'
     g = tlc.run('MC_StopWatch', gcfg, workdir=ctx.work,
